@@ -280,3 +280,8 @@ func InstrPos(in ssa.Instruction) token.Pos {
 	}
 	return in.Parent().Pos()
 }
+
+// CalleeIs reports whether fn is the SSA function of the given object.
+func CalleeIs(fn *ssa.Function, obj *types.Func) bool {
+	return fn != nil && fn.Object() == obj
+}
